@@ -239,36 +239,64 @@ def r2_offset_discipline(ctx, sym):
                               "issue %s is not located through self.locate()" % call_name(inner),
                               "this TIFA issue is reported without the section offset")
     ctx.floor('R2', 'TIFA _issue sites', n_issue, 25)
-    # traceback
+    # traceback: _fix_frame_line, build_traceback and __init__ executed abstractly on model frames
+    from .. import symexec
     ux = ctx.repo.module(UEXC)
     fix = ux.func('ExpandedTraceback._fix_frame_line')
     ctx.analysed_function(ux, fix)
-    ok = any(isinstance(n, ast.AugAssign) and norm(n.target) == 'frame.lineno' and isinstance(n.op, ast.Add)
-             and norm(n.value) == 'self.line_offsets[frame.filename]' for n in ast.walk(fix))
-    ctx.check(ok, 'R2', 'traceback:_fix_frame_line', ux, fix,
-              "traceback frames are not shifted by self.line_offsets[frame.filename]",
-              "traceback lines inside a section are section-relative")
+    for fname, offsets, want in (('answer.py', {'answer.py': 10}, 13), ('answer.py', {}, 3),
+                                 ('helper.py', {'answer.py': 10}, 3), ('answer.py', {'answer.py': 0}, 3)):
+        frame = Obj('frame', filename=fname, lineno=3, _line='old', _lines='old', line='old', __open__=True)
+        me = symexec.self_obj(ux, 'ExpandedTraceback', line_offsets=offsets,
+                              original_code_lines=['l1', 'l2', 'l3', 'l4'], student_files={fname: ['l1', 'l2', 'l3']})
+        fd = symexec.new_fd(sym, ux, calls={'len': len})
+        _, raised = symexec.run(fd, fix, [frame], bound_self=me, what='ExpandedTraceback._fix_frame_line')
+        ctx.check(raised is None and frame.attrs.get('lineno') == want, 'R2',
+                  'traceback:_fix_frame_line[%s,%r]' % (fname, offsets), ux, fix,
+                  "a frame on line 3 of %s with section offsets %r ends on line %r%s, expected %d" % (
+                      fname, offsets, frame.attrs.get('lineno'), '' if raised is None else ' (raises %s)' % raised.kind,
+                      want), "traceback lines inside a section are section-relative")
     bt = ux.func('ExpandedTraceback.build_traceback')
-    loops = [n for n in body_walk(bt) if isinstance(n, ast.For) and any(
-        is_self_call_named(c, '_fix_frame_line') for c in calls(n))]
-    ctx.check(len(loops) >= 1 and norm(loops[0].iter).endswith('.stack'), 'R2', 'traceback:all-frames-fixed', ux, bt,
-              "not every frame of the traceback is passed through _fix_frame_line",
+    ctx.analysed_function(ux, bt)
+    rec = symexec.Recorder()
+    frames = [Obj('frame%d' % i, filename='answer.py', lineno=i + 1, __open__=True) for i in range(3)]
+    tb_e = Obj('TracebackException', stack=list(frames))
+    me = symexec.self_obj(ux, 'ExpandedTraceback', exception=Obj('exception', exc_kind='ValueError'),
+                          exc_info=('T', 'E', None), line_offsets={'answer.py': 10}, full_traceback=False)
+    symexec.method(me, '_fix_frame_line', rec.stub('_fix_frame_line'))
+    symexec.method(me, '_is_relevant_tb_level', lambda tb: False)
+    symexec.method(me, '_count_relevant_tb_levels', lambda tb: 3)
+    fd = symexec.new_fd(sym, ux, calls={'traceback.TracebackException': lambda *a, **k: tb_e,
+                                        'isinstance': lambda o, t: False, 'list': list})
+    got, raised = symexec.run(fd, bt, [], bound_self=me, what='ExpandedTraceback.build_traceback')
+    fixed = [e[1][0] for e in rec.named('_fix_frame_line')]
+    ctx.check(raised is None and len(fixed) == 3 and all(a is b for a, b in zip(fixed, frames)) and
+              isinstance(got, list) and len(got) == 3, 'R2', 'traceback:all-frames-fixed', ux, bt,
+              "not every frame of the traceback is passed through _fix_frame_line exactly once (%d of 3)" % len(fixed),
               "some traceback lines are section-relative")
     init = ux.func('ExpandedTraceback.__init__')
     ctx.analysed_function(ux, init)
-    ln = [n for n in body_walk(init) if isinstance(n, ast.Assign) and any(is_self_attr(t, 'line_number')
-                                                                         for t in n.targets)]
-    ok = len(ln) == 1 and isinstance(ln[0].value, ast.BinOp) and isinstance(ln[0].value.op, ast.Add) and \
-        'line_offsets' in norm(ln[0].value)
-    ctx.check(ok, 'R2', 'traceback:line_number', ux, ln[0] if ln else init,
-              "ExpandedTraceback.line_number is the raw line of the last frame (no section offset)",
-              "an error on file line 4 inside section 1 is located on line 3 by the runtime feedback")
-    if ln:
-        line_number_provenance(ctx, ux, init, ln, 'R2')
-    okp = any(isinstance(n, ast.Assign) and any(is_self_attr(t, 'line_offsets') for t in n.targets)
-              and norm(n.value) == 'line_offsets' for n in body_walk(init))
-    ctx.check(okp, 'R2', 'traceback:stores-offsets', ux, init, "line offsets are not kept by the traceback",
-              "frames cannot be shifted")
+    for fname, offsets, want in (('answer.py', {'answer.py': 10}, 14), ('answer.py', {}, 4),
+                                 ('helper.py', {'answer.py': 10}, 4)):
+        # the traceback entries are (filename, lineno, ...) summaries of where each frame *raised*
+        entries = [Obj('FrameSummary', filename='outer.py', lineno=1, __getitem__=None),
+                   Obj('FrameSummary', filename=fname, lineno=4)]
+        for e in entries:
+            e.attrs['method:__getitem__'] = (lambda ee: (lambda i: [ee.attrs['filename'], ee.attrs['lineno']][i]))(e)
+        tb = Obj('traceback-object', tb_lineno=4, tb_next=None,
+                 tb_frame=Obj('frame', f_lineno=99, f_code=Obj('code', co_filename=fname)))
+        me = symexec.self_obj(ux, 'ExpandedTraceback')
+        fd = symexec.new_fd(sym, ux, calls={'traceback.extract_tb': lambda t: list(entries) if t is tb else []})
+        _, raised = symexec.run(fd, init, [Obj('exception'), ('T', 'E', tb), False, [], offsets, [fname], ['a'], {}],
+                                bound_self=me, what='ExpandedTraceback.__init__')
+        ctx.check(raised is None and me.attrs.get('line_number') == want, 'R2',
+                  'traceback:line_number[%s,%r]' % (fname, offsets), ux, init,
+                  "an error raised on line 4 of %s (the frame has since moved on to line 99) with section offsets %r "
+                  "gets line_number %r, expected %d" % (fname, offsets, me.attrs.get('line_number'), want),
+                  "an error on file line 4 inside section 1 is located on line 3 by the runtime feedback; a failing "
+                  "statement inside try/finally is located on the cleanup line")
+        ctx.check(me.attrs.get('line_offsets') is offsets, 'R2', 'traceback:stores-offsets[%s,%r]' % (fname, offsets), ux,
+                  init, "line offsets are not kept by the traceback", "frames cannot be shifted")
     # sandbox: _capture_exception executed abstractly with marker objects
     sandbox_capture_rule(ctx, sym, 'R2')
 
